@@ -50,7 +50,8 @@ long	vf_nviol (void);
 
 /* per-worker "what am I executing right now" slot, used to attribute crashes.
  * The harness writes a replayable case string into it before each risky execution. */
-char	*vf_slot (void);			/* VF_SLOT_LEN bytes, this worker's */
+char	*vf_slot (void);			/* VF_SLOT_LEN bytes, this worker's; each call counts as a heartbeat */
+void	vf_heartbeat (void);			/* long loops without slot updates call this so they are not taken for a hang */
 void	vf_slot_set_prop (const char *prop);	/* property a crash in this worker is attributed to */
 
 /* run fn(item) for item in [0,nitems) on the worker pool; a worker that dies is
